@@ -45,7 +45,7 @@ func (verifChecker) Check(context.Context, *dns.Msg, *agd.RequestInfo) (*dns.Msg
 // hashes the matcher returns, a malformed prefix is refused and never forwarded, and
 // any other TXT query is passed on untouched.
 //
-//verif:harness name=H11e-txt-flow tier=quick,thorough bounds="query names: well-formed 4- and 8-character prefixes under the suffix, malformed prefixes (bad length, non-hex), a name outside the suffix; real hashprefix.Matcher and Storage" reach=hashes,refused,forwarded
+//verif:harness name=H11e-txt-flow tier=quick,thorough bounds="query names: well-formed 4- and 8-character prefixes under the suffix, malformed prefixes (bad length, non-hex), names outside the suffix, with the suffix in the middle, twice, or without a label boundary; real hashprefix.Matcher and Storage" reach=hashes,refused,forwarded
 func VerifC11TXT() {
 	strg, err := hashprefix.NewStorage("bad.example\nworse.example\n")
 	verifAssume(err == nil)
@@ -67,6 +67,14 @@ func VerifC11TXT() {
 		{"zzzz" + suffix, 1},
 		{"0000.zz" + suffix, 1},
 		{"0000.example.org", 2},
+		// the suffix somewhere else than at the end is not a hash query
+		{"0000" + suffix + ".example.org", 2},
+		{"www" + suffix + ".example.org", 2},
+		{"sb.dns.adguard.com.example.org", 2},
+		// the suffix twice: everything before the last one is the (malformed) prefix part
+		{"0000" + suffix + suffix, 1},
+		// a name that only ends like the suffix without the label boundary
+		{"0000xsb.dns.adguard.com", 2},
 	}
 	k := kinds[verifChoice(len(kinds))]
 	req := &dns.Msg{}
